@@ -77,3 +77,52 @@ pub fn two_hooks<'a>(
     .sim_output();
     (sa, sb, out)
 }
+
+/// C34 program (atomic acknowledgements imply read-after-write): keyed write requests with
+/// UNORDERED values enter an atomic region; acknowledgements leave it through `end_atomic()`;
+/// the state lives in a `sliced!` region fed by `use::atomic` of that keyed atomic stream; a
+/// read is sent only after the acknowledgement has been observed.  Runs the real exhaustive
+/// simulator and returns (number of executions, the total every read observed).
+pub fn atomic_keyed_exhaustive(key: u32, inc: i32) -> (usize, Vec<i32>) {
+    use std::sync::Mutex;
+    static SEEN: Mutex<Vec<i32>> = Mutex::new(Vec::new());
+    SEEN.lock().unwrap().clear();
+
+    let mut flow = FlowBuilder::new();
+    let node = flow.process::<()>();
+
+    let (write_send, write_req) = node.sim_input::<(u32, i32), NoOrder, _>();
+    let (read_send, read_req) = node.sim_input::<(), _, _>();
+
+    let atomic_write = write_req.into_keyed().atomic();
+    let write_ack_recv = atomic_write.clone().end_atomic().entries().sim_output();
+
+    let read_response_recv = sliced! {
+        let writes = use::atomic(atomic_write, nondet!(/** e2e */));
+        let reads = use::batch(read_req, nondet!(/** e2e */));
+        let mut total = use::state(|l| l.singleton(q!(0)));
+
+        let added = writes.values().fold(
+            q!(|| 0),
+            q!(
+                |acc, v| *acc += v,
+                commutative = manual_proof!(/** integer addition is commutative */)
+            ),
+        );
+        let new_total = total.clone().zip(added).map(q!(|(old, add)| old + add));
+        total = new_total.clone();
+
+        reads.cross_singleton(new_total)
+    }
+    .sim_output();
+
+    let count = flow.sim().exhaustive(async || {
+        write_send.send_many_unordered([(key, inc)]);
+        write_ack_recv.assert_yields_unordered([(key, inc)]).await;
+        // the acknowledgement has been observed: the write must be visible to any later read
+        read_send.send(());
+        let (_, seen) = read_response_recv.next().await;
+        SEEN.lock().unwrap().push(seen);
+    });
+    (count, SEEN.lock().unwrap().clone())
+}
